@@ -1,9 +1,125 @@
-(* C05 -- AMF0 values round-trip and report their exact encoded size. *)
-From Verif Require Import Lib.Base Lib.Sx Model.Amf0 Proofs.Amf0.
+(* C05 -- AMF0 values round-trip and report their exact encoded size.
+   Property theorems only; proofs are in Proofs/Amf0.v.  Model: Model/Amf0.v (amf0/amf0.go after
+   the two fix commits recorded in known_findings.txt).
+
+   Vocabulary: [enc] = MarshalBinary, [size] = Size(), [dec fuel p] = Discovery(p) followed by
+   UnmarshalBinary(p), returning the value and its Size(); [decode p] = dec with the fuel
+   length p + 1, which always suffices (c05_fuel).  [wf_amf v]: v is representable -- number bit
+   patterns < 2^64, strings and keys <= 65535 bytes, ECMA count < 2^32, strict length < 2^32.
+   Trees are arbitrary otherwise: any nesting, any key order, repeated and empty keys. *)
+From Verif Require Import Lib.Base Lib.Sx Model.Amf0 Proofs.Amf0 Proofs.Amf0Fast.
 Open Scope N_scope.
 
-Theorem c05_dupkey_witness :
-  decode [3; 0;1;97; 5; 0;1;97; 5; 0;0;9] = Ok (AObj [([97], ANull); ([97], ANull)], 12).
-Proof. exact dupkey_witness. Qed.
+(* 1. Marshalling yields exactly Size() bytes (every tree, no side condition). *)
+Theorem c05_size_enc v : lenN (enc v) = size v.
+Proof. exact (amf0_size_enc v). Qed.
 
-Print Assumptions c05_dupkey_witness.
+(* 2. Unmarshalling those bytes -- whatever follows them -- yields the same tree, keys in the
+   original order, numbers bit-exact for all 2^64 patterns (NaN payloads, infinities, -0 are
+   patterns like any other); the size reported is Size(). *)
+Theorem c05_dec_enc v rest : wf_amf v -> decode (enc v ++ rest) = Ok (v, size v).
+Proof.
+  intros Hwf. unfold decode, dec_fuel. apply amf0_dec_enc; [exact Hwf|].
+  rewrite app_length. lia.
+Qed.
+
+Theorem c05_dec_enc_fuel v rest fuel :
+  wf_amf v -> (length (enc v) < fuel)%nat -> dec fuel (enc v ++ rest) = Ok (v, size v).
+Proof. exact (amf0_dec_enc v rest fuel). Qed.
+
+Theorem c05_number_bit_exact b rest : b < 2 ^ 64 -> decode (enc (ANum b) ++ rest) = Ok (ANum b, 9).
+Proof. intros Hb. apply (c05_dec_enc (ANum b)). unfold wf_amf. cbn [wf_amfb]. change (2 ^ 64) with 18446744073709551616 in Hb. lia. Qed.
+
+(* 3. Re-marshalling: whatever decodes (from any byte string) re-marshals to Size() bytes that
+   decode to the same value, and marshal . decode . marshal = marshal. *)
+Theorem c05_reenc fuel p v n : wf_bytes p -> dec fuel p = Ok (v, n) ->
+  decode (enc v) = Ok (v, n) /\
+  (forall v' n', decode (enc v) = Ok (v', n') -> enc v' = enc v) /\
+  lenN (enc v) = n.
+Proof. exact (amf0_reenc fuel p v n). Qed.
+
+(* 4. For every byte string that decodes, Size() afterwards is the number of bytes consumed: the
+   input splits as w ++ rest with |w| = Size(); the result does not depend on rest (a caller that
+   advances by Size() is aligned on the next value); and no proper prefix of w decodes at all
+   (so |w| is the least decodable prefix length, which is what the harness measures). *)
+Theorem c05_consumed fuel p v n : dec fuel p = Ok (v, n) ->
+  exists w rest, p = w ++ rest /\ lenN w = n /\ n = size v /\
+    (forall rest' fuel', (length w < fuel')%nat -> dec fuel' (w ++ rest') = Ok (v, n)) /\
+    (forall k fuel' x, (k < length w)%nat -> dec fuel' (firstn k p) <> Ok x).
+Proof. exact (amf0_dec_exact fuel p v n). Qed.
+
+(* The former witness of defect #8 (key "a" twice): 12 bytes consumed, Size() = 12 (was 8). *)
+Theorem c05_consumed_dupkey_witness :
+  decode [3; 0;1;97; 5; 0;1;97; 5; 0;0;9] = Ok (AObj [([97], ANull); ([97], ANull)], 12).
+Proof. vm_compute. reflexivity. Qed.
+
+(* 5. Strict arrays (former defect #9): the count on the wire is the number of elements, and a
+   strict array with any elements round-trips inside any container. *)
+Theorem c05_strict_count ps rest : wf_amf (AStrict ps) ->
+  enc (AStrict ps) = mStrictArray :: be4 (plen ps) ++ enc_props ps /\
+  decode (enc (AStrict ps) ++ rest) = Ok (AStrict ps, size (AStrict ps)).
+Proof.
+  intros Hwf. split; [|apply c05_dec_enc; exact Hwf].
+  rewrite enc_strict. unfold wf_amf in Hwf. rewrite wf_strict in Hwf.
+  apply andb_true_iff in Hwf. destruct Hwf as [Hc _]. unfold u32.
+  replace (plen ps mod 4294967296) with (plen ps) by lia. reflexivity.
+Qed.
+
+(* 6. The decoder never panics (the slice p[a.Size():] is always in range) and always returns:
+   fuel length p + 1 suffices, more fuel never changes the result. *)
+Theorem c05_total fuel p : wf_bytes p -> forall s, dec fuel p <> Panic s.
+Proof. exact (amf0_dec_total fuel p). Qed.
+
+Theorem c05_fuel fuel p : (length p < fuel)%nat -> dec fuel p <> Err E_FUEL /\ dec fuel p = decode p.
+Proof. intros H. split; [apply amf0_dec_fuel; exact H|apply amf0_decode_fuel; exact H]. Qed.
+
+(* The encoder produces bytes, and decoded values are representable (so 3. applies to them). *)
+Theorem c05_enc_bytes v : wf_amf v -> wf_bytes (enc v).
+Proof. exact (amf0_enc_wf_bytes v). Qed.
+
+Theorem c05_dec_wf fuel p v n : wf_bytes p -> dec fuel p = Ok (v, n) -> wf_amf v.
+Proof. exact (amf0_dec_wf fuel p v n). Qed.
+
+(* 7. Trees built through the public API: Set(key, value) keeps the key list when the key exists
+   (the value is replaced in place) and appends the key otherwise, so keys are unique and stay in
+   first-set order, Get returns the value set last, other keys are untouched.  (1.-4. hold for
+   all trees, API-built or decoded, so no uniqueness hypothesis is needed there.) *)
+Theorem c05_set_keys ps k v :
+  map fst (set_prop ps k v) = (if has_key ps k then map fst ps else map fst ps ++ [k]) /\
+  get_prop (set_prop ps k v) k = Some v /\
+  (forall k', k' <> k -> get_prop (set_prop ps k v) k' = get_prop ps k').
+Proof.
+  split; [apply set_prop_keys|]. split; [apply get_set_same|]. intros k' H. apply get_set_other. exact H.
+Qed.
+
+Theorem c05_api_built_unique ops : NoDup (map fst (build_props ops)).
+Proof. exact (build_props_nodup ops). Qed.
+
+(* 8. The function the harness executes (extracted [decode_fast], linear time: it threads the
+   remaining input instead of re-walking Size() bytes) is the function the theorems are about. *)
+Theorem c05_model_fast p : decode_fast p = decode p.
+Proof. exact (decf_eq p). Qed.
+
+(* non-vacuity: a representable tree with nesting, a repeated key, an empty key, a signalling NaN,
+   -0, an ECMA array with a foreign count and a strict array with elements *)
+Example c05_nonvacuous :
+  let v := AObj [([97], AEcma 7 [([], ANum 9218868437227405313); ([98], AStrict [([99], ANum 9223372036854775808); ([99], ABool true)])]);
+                 ([97], AStr [0; 0; 9]); ([], AUndef)] in
+  wf_amf v /\ decode (enc v ++ [9; 9]) = Ok (v, size v) /\ size v = 63.
+Proof. vm_compute. repeat split; reflexivity. Qed.
+
+Print Assumptions c05_size_enc.
+Print Assumptions c05_dec_enc.
+Print Assumptions c05_dec_enc_fuel.
+Print Assumptions c05_number_bit_exact.
+Print Assumptions c05_reenc.
+Print Assumptions c05_consumed.
+Print Assumptions c05_consumed_dupkey_witness.
+Print Assumptions c05_strict_count.
+Print Assumptions c05_total.
+Print Assumptions c05_fuel.
+Print Assumptions c05_enc_bytes.
+Print Assumptions c05_dec_wf.
+Print Assumptions c05_set_keys.
+Print Assumptions c05_api_built_unique.
+Print Assumptions c05_model_fast.
